@@ -1,8 +1,217 @@
 import RisorModel.Util
-/-! Line-protocol front end of the C16 model (stub until the model exists). -/
+import RisorModel.C16.Model
+/-!
+Line-protocol front end of the C16 model (requests after the leading `C16` field).
+
+  seq  <objects>  <ops>
+     objects : `;`-separated   L:v,v,…  |  M:hexkey=v,…  |  S:v,…  |  B:hexbytes
+     ops     : `;`-separated   name,arg,arg,…      (handles are decimal object numbers)
+     values  : n | t | f | i<int> | y<byte> | s<hex> | r<handle> | _ (absent)
+  reply: per step, `|`-separated:  implRes ; implState ; tag ; (= | specRes ; specState)
+     tag = `map` / `bytes` when the step is one on which today's code is known to leave the
+     reference semantics (see `Risor.C16.findingTag`), `-` otherwise
+-/
 namespace Risor.C16
+open Risor.Util
+
+def parseInt (s : String) : Option Int :=
+  match s.toList with
+  | '-' :: rest => (String.ofList rest).toNat?.map (fun n => -(n : Int))
+  | _ => s.toNat?.map (fun n => (n : Int))
+
+def parseVal (s : String) : Option Val :=
+  match s.toList with
+  | ['n'] => some .nil
+  | ['t'] => some (.bool true)
+  | ['f'] => some (.bool false)
+  | 'i' :: rest => (parseInt (String.ofList rest)).map .int
+  | 'y' :: rest => (String.ofList rest).toNat?.map .byte
+  | 's' :: rest => (fromHexChars rest).map .str
+  | 'r' :: rest => (String.ofList rest).toNat?.map .ref
+  | _ => none
+
+def parseOpt (s : String) : Option (Option Val) :=
+  if s = "_" then some none else (parseVal s).map some
+
+def splitNonEmpty (s : String) (sep : String) : List String :=
+  if s.isEmpty then [] else s.splitOn sep
+
+def parseObj (h : Heap) (s : String) : Option Heap :=
+  match s.splitOn ":" with
+  | ["L", body] => do
+    let vs ← (splitNonEmpty body ",").mapM parseVal
+    pure { h with objs := h.objs ++ [.list vs] }
+  | ["S", body] => do
+    let vs ← (splitNonEmpty body ",").mapM parseVal
+    pure { h with objs := h.objs ++ [.set (vs.foldl Impl.sadd [])] }
+  | ["M", body] => do
+    let kvs ← (splitNonEmpty body ",").mapM (fun kv => match kv.splitOn "=" with
+      | [k, v] => do
+        let k ← fromHex k
+        let v ← parseVal v
+        pure (k, v)
+      | _ => none)
+    pure { h with objs := h.objs ++ [.map (kvs.foldl (fun acc p => Impl.mset acc p.1 p.2) [])] }
+  | ["B", body] => do
+    let bs ← fromHex body
+    pure { objs := h.objs ++ [.bytes h.arrs.length 0 bs.length], arrs := h.arrs ++ [bs] }
+  | _ => none
+
+def parseCb (s : String) : Option Impl.Cb :=
+  match s with
+  | "idx" => some .idx
+  | "val" => some .val
+  | "idxplus" => some .idxPlus
+  | "one" => some .one
+  | _ => none
+
+def parseOp (s : String) : Option Op :=
+  match s.splitOn "," with
+  | ["lget", r, i] => do pure (.lGet (← r.toNat?) (← parseVal i))
+  | ["lslice", r, a, b] => do pure (.lSlice (← r.toNat?) (← parseOpt a) (← parseOpt b))
+  | ["lset", r, i, v] => do pure (.lSet (← r.toNat?) (← parseVal i) (← parseVal v))
+  | ["laddassign", r, i, v] => do pure (.lAddAssign (← r.toNat?) (← parseVal i) (← parseVal v))
+  | ["lappend", r, v] => do pure (.lAppend (← r.toNat?) (← parseVal v))
+  | ["linsert", r, i, v] => do pure (.lInsert (← r.toNat?) (← parseVal i) (← parseVal v))
+  | ["lpop", r, i] => do pure (.lPop (← r.toNat?) (← parseVal i))
+  | ["lremove", r, v] => do pure (.lRemove (← r.toNat?) (← parseVal v))
+  | ["lextend", r, o] => do pure (.lExtend (← r.toNat?) (← parseVal o))
+  | ["lreverse", r] => do pure (.lReverse (← r.toNat?))
+  | ["lsort", r] => do pure (.lSort (← r.toNat?))
+  | ["lcopy", r] => do pure (.lCopy (← r.toNat?))
+  | ["lclear", r] => do pure (.lClear (← r.toNat?))
+  | ["lindex", r, v] => do pure (.lIndex (← r.toNat?) (← parseVal v))
+  | ["lcount", r, v] => do pure (.lCount (← r.toNat?) (← parseVal v))
+  | ["lcontains", r, v] => do pure (.lContains (← r.toNat?) (← parseVal v))
+  | ["llen", r] => do pure (.lLen (← r.toNat?))
+  | ["ldel", r, i] => do pure (.lDel (← r.toNat?) (← parseVal i))
+  | ["lconcat", r, o] => do pure (.lConcat (← r.toNat?) (← parseVal o))
+  | ["lsorted", r] => do pure (.lSorted (← r.toNat?))
+  | ["lreversed", r] => do pure (.lReversed (← r.toNat?))
+  | ["lkeys", r] => do pure (.lKeys (← r.toNat?))
+  | ["lmap", r, cb] => do pure (.lMap (← r.toNat?) (← parseCb cb))
+  | ["lmapacc", r, acc] => do pure (.lMapAcc (← r.toNat?) (← acc.toNat?))
+  | ["mset", r, k, v] => do pure (.mSet (← r.toNat?) (← parseVal k) (← parseVal v))
+  | ["mget", r, k] => do pure (.mGet (← r.toNat?) (← parseVal k))
+  | ["mgetdef", r, k, d] => do pure (.mGetDef (← r.toNat?) (← parseVal k) (← parseOpt d))
+  | ["mpop", r, k, d] => do pure (.mPop (← r.toNat?) (← parseVal k) (← parseOpt d))
+  | ["mdel", r, k] => do pure (.mDel (← r.toNat?) (← parseVal k))
+  | ["mupdate", r, o] => do pure (.mUpdate (← r.toNat?) (← parseVal o))
+  | ["msetdefault", r, k, v] => do pure (.mSetDefault (← r.toNat?) (← parseVal k) (← parseVal v))
+  | ["mcopy", r] => do pure (.mCopy (← r.toNat?))
+  | ["mclear", r] => do pure (.mClear (← r.toNat?))
+  | ["mkeys", r] => do pure (.mKeys (← r.toNat?))
+  | ["mvalues", r] => do pure (.mValues (← r.toNat?))
+  | ["mcontains", r, k] => do pure (.mContains (← r.toNat?) (← parseVal k))
+  | ["mlen", r] => do pure (.mLen (← r.toNat?))
+  | ["maddassign", r, k, v] => do pure (.mAddAssign (← r.toNat?) (← parseVal k) (← parseVal v))
+  | ["sadd", r, v] => do pure (.sAdd (← r.toNat?) (← parseVal v))
+  | ["sremove", r, v] => do pure (.sRemove (← r.toNat?) (← parseVal v))
+  | ["sunion", r, o] => do pure (.sUnion (← r.toNat?) (← parseVal o))
+  | ["sinter", r, o] => do pure (.sInter (← r.toNat?) (← parseVal o))
+  | ["scontains", r, v] => do pure (.sContains (← r.toNat?) (← parseVal v))
+  | ["sget", r, v] => do pure (.sGet (← r.toNat?) (← parseVal v))
+  | ["sdel", r, v] => do pure (.sDel (← r.toNat?) (← parseVal v))
+  | ["slen", r] => do pure (.sLen (← r.toNat?))
+  | ["sclear", r] => do pure (.sClear (← r.toNat?))
+  | ["bget", r, i] => do pure (.bGet (← r.toNat?) (← parseVal i))
+  | ["bset", r, i, v] => do pure (.bSet (← r.toNat?) (← parseVal i) (← parseVal v))
+  | ["bslice", r, a, b] => do pure (.bSlice (← r.toNat?) (← parseOpt a) (← parseOpt b))
+  | ["bclone", r] => do pure (.bClone (← r.toNat?))
+  | ["blen", r] => do pure (.bLen (← r.toNat?))
+  | ["strget", s, i] => do pure (.strGet (← parseVal s) (← parseVal i))
+  | ["strslice", s, a, b] => do pure (.strSlice (← parseVal s) (← parseOpt a) (← parseOpt b))
+  | ["strlen", s] => do pure (.strLen (← parseVal s))
+  | _ => none
+
+def insSet (v : Val) : List Val → List Val
+  | [] => [v]
+  | x :: xs => if keyLt v x then v :: x :: xs else x :: insSet v xs
+
+def sortSet (xs : List Val) : List Val := xs.foldl (fun acc v => insSet v acc) []
+
+def hexOf (bs : List Nat) : String := toHex bs
+
+/-- canonical text of a value; containers are rendered structurally through the heap -/
+def renderVal (h : Heap) (fuel : Nat) (v : Val) : String :=
+  match v with
+  | .nil => "n"
+  | .bool true => "t"
+  | .bool false => "f"
+  | .int i => "i" ++ toString i
+  | .byte n => "y" ++ toString n
+  | .str s => "s" ++ hexOf s
+  | .ref r =>
+    match fuel with
+    | 0 => "?"
+    | f+1 =>
+      match h.get r with
+      | .list xs => "L[" ++ ",".intercalate (xs.map (renderVal h f)) ++ "]"
+      | .map kvs => "M{" ++ ",".intercalate ((sortedKVs kvs).map (fun p => hexOf p.1 ++ "=" ++ renderVal h f p.2)) ++ "}"
+      | .set xs => "S{" ++ ",".intercalate ((sortSet xs).map (renderVal h f)) ++ "}"
+      | .bytes a o l => "B" ++ hexOf (bytesContent h a o l)
+
+def renderState (h : Heap) : String :=
+  " ".intercalate ((List.range h.objs.length).map (fun r => renderVal h (fuelOf h) (.ref r)))
+
+def renderErr : ErrC → String
+  | .type => "type" | .index => "index" | .slice => "slice" | .key => "key" | .value => "value" | .panic => "panic"
+
+/-- results that are freshly made containers are rendered as `new` (their content is in the
+    state); other values structurally -/
+def renderRes (h0 h : Heap) : Res → String
+  | .unit => "unit"
+  | .err c => "err:" ++ renderErr c
+  | .val (.ref r) => if r ≥ h0.objs.length then "new" else "v:" ++ renderVal h (fuelOf h) (.ref r)
+  | .val v => "v:" ++ renderVal h (fuelOf h) v
+
+/-- does another byte_slice object view the same array as `r`? -/
+def sharedArr (h : Heap) (r : Nat) : Bool :=
+  match h.get r with
+  | .bytes a _ _ =>
+    ((List.range h.objs.length).filter (fun q => q ≠ r && (match h.get q with
+      | .bytes a2 _ _ => a2 == a
+      | _ => false))).length > 0
+  | _ => false
+
+/-- the known finding a step falls under, judged on the Impl heap before the step -/
+def findingTag (h : Heap) (op : Op) : String :=
+  match op with
+  | .lMap r .idx => match h.get r with
+    | .list xs => if xs.length ≥ 2 then "map" else "-"
+    | _ => "-"
+  | .lMapAcc r _ => match h.get r with
+    | .list xs => if xs.length ≥ 2 then "map" else "-"
+    | _ => "-"
+  | .bSet r _ _ => if sharedArr h r then "bytes" else "-"
+  | _ => "-"
+
+def runSeq (hi hs : Heap) : List Op → List String
+  | [] => []
+  | op :: ops =>
+    let (hi', ri) := step .impl hi op
+    let (hs', rs) := step .spec hs op
+    let a := renderRes hi hi' ri
+    let sa := renderState hi'
+    let b := renderRes hs hs' rs
+    let sb := renderState hs'
+    let tag := findingTag hi op
+    let line := a ++ ";" ++ sa ++ ";" ++ tag ++ ";" ++ (if a == b && sa == sb then "=" else b ++ ";" ++ sb)
+    line :: runSeq hi' hs' ops
 
 def handle : List String → String
-  | _ => "error\tnot-implemented"
+  | ["seq", objs, ops] =>
+    let objs := if objs = "-" then "" else objs
+    let ops := if ops = "-" then "" else ops
+    match (splitNonEmpty objs ";").foldlM parseObj ({ objs := [], arrs := [] } : Heap),
+          (splitNonEmpty ops ";").mapM parseOp with
+    | some h, some ops => "ok\t" ++ renderState h ++ "\t" ++ "|".intercalate (runSeq h h ops)
+    | none, _ => "error\tbad-objects"
+    | _, none => "error\tbad-ops"
+  | ["runes", s] =>
+    match fromHex s with
+    | some bs => ",".intercalate ((runes bs).map toString)
+    | none => "error\tbad-hex"
+  | _ => "error\tunknown-request"
 
 end Risor.C16
